@@ -36,6 +36,8 @@ type Tgt struct {
 	Eps    map[string]string   `json:"eps,omitempty"`   // entry points
 	Binary bool                `json:"binary,omitempty"`
 	Sub    string              `json:"sub,omitempty"` // subrepo ("" = the main repository)
+	// Provides: language -> labels (package, name, subrepo); nil = no provides at all
+	Provides map[string][][3]string `json:"provides,omitempty"`
 }
 
 type Input struct {
@@ -54,6 +56,9 @@ type World struct {
 	Deps  [][3]string `json:"deps,omitempty"` // package, name, subrepo
 	Graph []Tgt       `json:"graph"`
 	Root  string      `json:"root"`
+	// require/provide (the extension): Requires of the current target and its data labels (each also a tool or a dep)
+	Requires []string    `json:"requires,omitempty"`
+	Data     [][3]string `json:"data,omitempty"`
 }
 
 func (t Tgt) label() string { return mkLabel(t.Sub, t.Pkg, t.Name).String() }
@@ -81,6 +86,13 @@ func mkTarget(t Tgt) *core.BuildTarget {
 	}
 	for _, n := range lib.SortedKeys(t.Eps) {
 		bt.AddEntryPoint(n, t.Eps[n])
+	}
+	for _, lang := range lib.SortedKeys(t.Provides) {
+		ls := []core.BuildLabel{}
+		for _, l := range t.Provides[lang] {
+			ls = append(ls, mkLabel(l[2], l[0], l[1]))
+		}
+		bt.AddProvide(lang, ls)
 	}
 	return bt
 }
@@ -128,6 +140,10 @@ func build(w *World) *built {
 	for _, in := range w.Tools {
 		self.AddTool(mkInput(in, w.Self.Pkg))
 	}
+	for _, d := range w.Data { // populateTarget: srcs, tools, data, ..., deps
+		self.AddDatum(mkLabel(d[2], d[0], d[1]))
+	}
+	self.Requires = w.Requires
 	self.IsBinary = w.Self.Binary
 	for _, o := range w.Self.Outs {
 		self.AddOutput(o)
@@ -544,6 +560,27 @@ type expectation struct {
 	paths  []string // the exact words the expansion must split into (only where no known finding applies)
 	shape  string   // the known-finding shape this sequence has, if any
 	why    string
+	provided         bool // the dependency is replaced by the target it provides for the rule
+	toolWithProvides bool // a tool that carries provides: must expand to the tool itself
+}
+
+// providedFor: what the declared dependency t is replaced by for the current rule (require/provide), if anything.
+func (w *World) providedFor(t *Tgt, ro roles) ([][3]string, bool) {
+	if t.Provides == nil || len(w.Requires) == 0 || ro.tool {
+		return nil, false
+	}
+	for _, d := range w.Data {
+		if d[0] == t.Pkg && d[1] == t.Name && d[2] == t.Sub {
+			return nil, false
+		}
+	}
+	out, found := [][3]string{}, false
+	for _, req := range w.Requires {
+		if ls, ok := t.Provides[req]; ok {
+			out, found = append(out, ls...), true
+		}
+	}
+	return out, found
 }
 
 func allOuts(b *built, t *Tgt) []string { return b.byLbl[t.label()].Outputs() }
@@ -584,6 +621,21 @@ func expect(w *World, b *built, s seq) expectation {
 		if !ro.declared() {
 			e.why = "not a dependency under that exact label (subrepo included)"
 			return e
+		}
+		if sub, fired := w.providedFor(t, ro); fired {
+			// the dependency is replaced by what it provides for the rule: that is what is built and linked into the
+			// build directory. Tools and data are never replaced (the spec side of provideFor, from the world alone).
+			if len(sub) == 0 {
+				e.valid, e.skip, e.why = true, true, "a dependency that provides nothing for this rule"
+				return e
+			}
+			if t = w.find(sub[0][2], sub[0][0], sub[0][1]); t == nil {
+				panic("provided target missing from the world")
+			}
+			e.provided = true
+		}
+		if t.Provides != nil && ro.tool {
+			e.toolWithProvides = true
 		}
 		outs := allOuts(b, t)
 		e.names = append([]string{t.Pkg, t.Sub}, outs...)
@@ -874,17 +926,20 @@ func main() {
 		return
 	}
 	lib.Main("C37", func(c *lib.Ctx) {
-		c.Model("From PlzV Require Import Model.C37.", "C37.case", "C37.check")
+		c.Model("From PlzV Require Import Model.C37 Model.C37_Ext.", "C37_Ext.case", "C37_Ext.check")
 		c.Rule("worlds: a current target with sources (files, labels, //x:y|named-output, //x:y|entry-point), tools (labels, |entry point, system tools) and deps " +
 			"over 3-6 targets with 1-3 outputs, named output groups, entry points and the binary flag, package and file names over an alphabet with shell metacharacters (a third of the worlds: plain names only; a third: plain names and the operators |&;()<> only, several outputs per target, $(locations)/$(out_locations) of every declared multi-output source, dep and tool); " +
 			"half of the worlds put a third of the targets into subrepos (a vendored tree, an architecture, a short name) and add twins: the same package:name in another repository, each declared or not independently, with sequences naming the undeclared side (///sub//p:n, @sub//p:n, //p:n, an unknown subrepo); " +
 			"per world 10 single sequences (every keyword x label / :local / |entry point / file / self / system tool / malformed or foreign label) through core.ReplaceSequences, " +
 			"2 composite commands, 1 test command through core.ReplaceTestSequences, and the core.IterSources layout; unknown entry points run in a child process (log.Fatalf). " +
 			"oracle: the world is materialised on disk as IterSources says and bash, in the build directory (or the repo root for out_ forms), must make the expected number of words, each existing and (outside the known-finding shapes) each equal to the path computed from the world description (<pkg>/<out>, plz-out/gen|bin/<subrepo>/<pkg>/<out>, absolute for tools); a label is a dependency only under its exact (subrepo, package, name); " +
-			"sequences that must be rejected must not expand. distinct = distinct (world, command); non-trivial = the sequence names a declared dependency or file and expands")
+			"sequences that must be rejected must not expand. distinct = distinct (world, command); non-trivial = the sequence names a declared dependency or file and expands. " +
+			"extension stream: worlds whose current target has requires (go / py,go / go,py / none) and whose tools and deps carry provides (a matching language, two, a non-matching one, an empty list) naming library targets of their own, a quarter of them also listed as data; every keyword on every such tool and dep through core.ReplaceSequences (a tool or data dependency must expand to itself, a plain dep to what it provides for the rule; same bash oracle); " +
+			"and, on these and on plain worlds, $(worker W) ARGS [&& LOCAL] commands (W a binary tool, a system tool name, rarely a non-tool; ARGS and LOCAL built from valid and invalid sequences; spacing variants, a single &, text before the worker) through core.WorkerCommandAndArgs, core.TestWorkerCommand and core.ReplaceTestSequences: a command with an invalid sequence in either half must be rejected, a valid one must give exactly what core.ReplaceSequences gives for each half and the absolute path of the tool")
 
 		if os.Getenv("C37_SKIP_INPROC") == "" {
 			inProcess(c)
+			extStream(c)
 		}
 		splitterTie(c)
 		if plz := os.Getenv("VERIF_PLZ"); plz != "" {
@@ -1008,7 +1063,7 @@ func inProcess(c *lib.Ctx) {
 		cw := coqWorld(w, b)
 		c.Hist("world_names", []string{"with-metacharacters", "plain", "plain-and-operators"}[mode])
 		c.Hist("world_repos", map[bool]string{true: "with-subrepos", false: "main-repository-only"}[w.hasSubrepos()])
-		c.Case(lib.App("CLayout", cw, lib.StrList(layout)), map[string]any{"world": w, "layout": layout}, fmt.Sprint("L", i), len(layout) > 0)
+		c.Case(lib.App("COld", lib.App("CLayout", cw, lib.StrList(layout))), map[string]any{"world": w, "layout": layout}, fmt.Sprint("L", i), len(layout) > 0)
 
 		pending := []bashQuery{}
 		for _, s := range append(fixed, genSeqs(r, w, max(10, len(fixed))-len(fixed))...) {
@@ -1024,54 +1079,12 @@ func inProcess(c *lib.Ctx) {
 				o = expand(b, false, cmd)
 			}
 			js := map[string]any{"world": w, "seq": s, "cmd": cmd, "outcome": o}
-			c.Case(lib.App("CCmd", cw, "false", lib.Str(cmd), o.coq()), js, fmt.Sprint(i, cmd), e.valid && o.Kind == "text")
+			c.Case(lib.App("COld", lib.App("CCmd", cw, "false", lib.Str(cmd), o.coq())), js, fmt.Sprint(i, cmd), e.valid && o.Kind == "text")
 			c.Hist("sequence", s.Kind)
 			c.Hist("outcome", o.Kind)
-			// ---- the property oracle
-			c.Oracle()
-			switch {
-			case e.skip:
-			case !e.valid && o.Kind == "text":
-				cls := e.shape
-				if cls == "" {
-					cls = "invalid-sequence-accepted"
-				}
-				c.Fail(cls, fmt.Sprintf("%s (%s) is not rejected: it expands to %q", cmd, e.why, o.Text), js)
-			case e.valid && o.Kind != "text":
-				c.Fail("valid-sequence-rejected", fmt.Sprintf("%s names a dependency of the right shape but is rejected (%s)", cmd, o.Kind), js)
-			case e.valid:
-				dir := tmpAbs
-				if e.inRepo {
-					dir = root
-				}
-				pending = append(pending, bashQuery{dir: dir, text: o.Text, below: e.dirOf, e: e, cmd: cmd, js: js})
-			}
+			judge(c, e, o, cmd, js, tmpAbs, root, &pending)
 		}
-		// one bash process per world answers all the queries (each text is parsed by `eval`, as `bash -c` would)
-		for k, br := range askBashAll(filepath.Join(root, ".queries"), pending) {
-			q := pending[k]
-			if q.e.paths != nil && br.ok && len(br.missing) == 0 && len(br.words) == q.e.words && !sameWords(br.words, q.e.paths) {
-				// model-independent: the words must be the paths at which the dependency's outputs are, one each
-				cls := "expansion-words-are-not-the-output-paths"
-				if hasUnhandledSpecial(q.e.names) {
-					cls = "name-with-shell-char-outside-quote-set"
-				}
-				c.Fail(cls, fmt.Sprintf("%s expands to %q: bash makes the words %q, the outputs are at %q", q.cmd, q.text, br.words, q.e.paths), q.js)
-				c.Hist("oracle", "fails:"+cls)
-			} else if !br.ok || len(br.words) != q.e.words || len(br.missing) > 0 {
-				cls := q.e.shape
-				if cls == "" && hasUnhandledSpecial(q.e.names) {
-					cls = "name-with-shell-char-outside-quote-set"
-				}
-				if cls == "" {
-					cls = "expansion-not-the-dependency-outputs"
-				}
-				c.Fail(cls, fmt.Sprintf("%s expands to %q: bash makes %d words %q (expected %d), missing %q %s", q.cmd, q.text, len(br.words), br.words, q.e.words, br.missing, br.note), q.js)
-				c.Hist("oracle", "fails:"+cls)
-			} else {
-				c.Hist("oracle", "holds")
-			}
-		}
+		settle(c, root, pending)
 		// composite commands: several sequences, text around them, escaped dollars
 		for k := 0; k < 2; k++ {
 			parts := []string{"cat"}
@@ -1084,7 +1097,7 @@ func inProcess(c *lib.Ctx) {
 			parts = append(parts, lib.Pick(r, []string{"> $OUT", "\\$HOME $(echo x)", "&& echo \\\\$ok", "$(location )", "$(dirs x) $(exe", "$(out_dir :gen"}))
 			cmd := strings.Join(parts, " ")
 			o := expand(b, false, cmd)
-			c.Case(lib.App("CCmd", cw, "false", lib.Str(cmd), o.coq()), map[string]any{"world": w, "cmd": cmd, "outcome": o}, fmt.Sprint(i, cmd), o.Kind == "text")
+			c.Case(lib.App("COld", lib.App("CCmd", cw, "false", lib.Str(cmd), o.coq())), map[string]any{"world": w, "cmd": cmd, "outcome": o}, fmt.Sprint(i, cmd), o.Kind == "text")
 		}
 		// a test command (and the empty test command = $(exe :self))
 		{
@@ -1096,8 +1109,389 @@ func inProcess(c *lib.Ctx) {
 				}
 			}
 			o := expand(b, true, cmd)
-			c.Case(lib.App("CCmd", cw, "true", lib.Str(cmd), o.coq()), map[string]any{"world": w, "test": true, "cmd": cmd, "outcome": o}, fmt.Sprint(i, "T", cmd), o.Kind == "text")
+			c.Case(lib.App("COld", lib.App("CCmd", cw, "true", lib.Str(cmd), o.coq())), map[string]any{"world": w, "test": true, "cmd": cmd, "outcome": o}, fmt.Sprint(i, "T", cmd), o.Kind == "text")
 		}
+		os.Chdir(cwd)
+		os.RemoveAll(root)
+	}
+}
+
+// judge: the property oracle on one sequence (what can be decided without bash); the rest is queued for bash.
+func judge(c *lib.Ctx, e expectation, o outcome, cmd string, js any, tmpAbs, root string, pending *[]bashQuery) {
+	c.Oracle()
+	switch {
+	case e.skip:
+	case !e.valid && o.Kind == "text":
+		cls := e.shape
+		if cls == "" {
+			cls = "invalid-sequence-accepted"
+		}
+		c.Fail(cls, fmt.Sprintf("%s (%s) is not rejected: it expands to %q", cmd, e.why, o.Text), js)
+	case e.valid && o.Kind != "text":
+		cls := "valid-sequence-rejected"
+		if e.toolWithProvides {
+			cls = "tool-with-provides-substituted"
+		}
+		c.Fail(cls, fmt.Sprintf("%s names a dependency of the right shape but is rejected (%s)", cmd, o.Kind), js)
+	case e.valid:
+		dir := tmpAbs
+		if e.inRepo {
+			dir = root
+		}
+		*pending = append(*pending, bashQuery{dir: dir, text: o.Text, below: e.dirOf, e: e, cmd: cmd, js: js})
+	}
+}
+
+// settle: one bash process per world answers all the queries (each text is parsed by `eval`, as `bash -c` would).
+func settle(c *lib.Ctx, root string, pending []bashQuery) {
+	for k, br := range askBashAll(filepath.Join(root, ".queries"), pending) {
+		q := pending[k]
+		if q.e.paths != nil && br.ok && len(br.missing) == 0 && len(br.words) == q.e.words && !sameWords(br.words, q.e.paths) {
+			// model-independent: the words must be the paths at which the dependency's outputs are, one each
+			cls := "expansion-words-are-not-the-output-paths"
+			if hasUnhandledSpecial(q.e.names) {
+				cls = "name-with-shell-char-outside-quote-set"
+			} else if q.e.toolWithProvides {
+				cls = "tool-with-provides-substituted"
+			}
+			c.Fail(cls, fmt.Sprintf("%s expands to %q: bash makes the words %q, the outputs are at %q", q.cmd, q.text, br.words, q.e.paths), q.js)
+			c.Hist("oracle", "fails:"+cls)
+		} else if !br.ok || len(br.words) != q.e.words || len(br.missing) > 0 {
+			cls := q.e.shape
+			if cls == "" && hasUnhandledSpecial(q.e.names) {
+				cls = "name-with-shell-char-outside-quote-set"
+			}
+			if cls == "" && q.e.toolWithProvides {
+				cls = "tool-with-provides-substituted"
+			}
+			if cls == "" {
+				cls = "expansion-not-the-dependency-outputs"
+			}
+			c.Fail(cls, fmt.Sprintf("%s expands to %q: bash makes %d words %q (expected %d), missing %q %s", q.cmd, q.text, len(br.words), br.words, q.e.words, br.missing, br.note), q.js)
+			c.Hist("oracle", "fails:"+cls)
+		} else {
+			c.Hist("oracle", "holds")
+		}
+	}
+}
+
+// ---------------------------------------------------------------------------------------------------------------
+// extension: require/provide and $(worker ...) commands
+
+func coqPx(w *World) string {
+	provs := []string{}
+	for _, g := range w.Graph {
+		if g.Provides == nil {
+			continue
+		}
+		langs := []string{}
+		for _, lang := range lib.SortedKeys(g.Provides) {
+			ls := []string{}
+			for _, l := range g.Provides[lang] {
+				ls = append(ls, coqLbl(l[0], l[1], l[2]))
+			}
+			langs = append(langs, lib.Pair(lib.Str(lang), lib.List(ls)))
+		}
+		provs = append(provs, lib.Pair(coqLbl(g.Pkg, g.Name, g.Sub), lib.List(langs)))
+	}
+	data := []string{}
+	for _, d := range w.Data {
+		data = append(data, coqLbl(d[0], d[1], d[2]))
+	}
+	return lib.App("mk_px", lib.StrList(w.Requires), lib.List(provs), lib.List(data))
+}
+
+// addProvides decorates a generated world: the current target requires languages, tools and deps (never sources)
+// carry provides naming library targets of their own, some of them are also data.
+func addProvides(r *lib.Rng, w *World) {
+	w.Requires = lib.Pick(r, [][]string{{"go"}, {"go"}, {"py", "go"}, {"go", "py"}, nil})
+	n0 := len(w.Graph)
+	for i := 0; i < n0; i++ {
+		t := &w.Graph[i]
+		ro := w.rolesOf(t)
+		if ro.plainSrc || ro.namedSrc || ro.epSrc || !r.Chance(2, 3) {
+			continue
+		}
+		mkLib := func(tag string, nout int, binary bool) [3]string {
+			l := Tgt{Pkg: t.Pkg, Name: t.Name + "_" + tag, Sub: t.Sub, Binary: binary}
+			for k := 0; k < nout; k++ {
+				l.Outs = append(l.Outs, fmt.Sprintf("%s_%s%d.a", t.Name, tag, k))
+			}
+			w.Graph = append(w.Graph, l)
+			t = &w.Graph[i]
+			return [3]string{l.Pkg, l.Name, l.Sub}
+		}
+		switch r.Intn(8) {
+		case 0, 1, 2:
+			t.Provides = map[string][][3]string{"go": {mkLib("golib", r.Range(1, 2), false)}}
+		case 3:
+			t.Provides = map[string][][3]string{"go": {mkLib("golib", 1, r.Bool())}, "py": {mkLib("pylib", r.Range(1, 2), false)}}
+		case 4:
+			t.Provides = map[string][][3]string{"py": {mkLib("pylib", 1, false)}}
+		case 5:
+			t.Provides = map[string][][3]string{"java": {mkLib("jlib", 1, false)}}
+		case 6:
+			t.Provides = map[string][][3]string{"go": {mkLib("golib", 1, false), mkLib("golib2", 1, false)}}
+		case 7:
+			t.Provides = map[string][][3]string{"go": {}}
+		}
+		if ro.declared() && r.Chance(1, 4) {
+			w.Data = append(w.Data, [3]string{t.Pkg, t.Name, t.Sub})
+		}
+	}
+}
+
+type woutcome struct {
+	Kind   string `json:"kind"` // ok | err | panic
+	Worker string `json:"worker,omitempty"`
+	Args   string `json:"args,omitempty"`
+	Local  string `json:"local,omitempty"`
+}
+
+func (o woutcome) coq() string {
+	switch o.Kind {
+	case "ok":
+		return lib.App("WOOk", lib.Str(o.Worker), lib.Str(o.Args), lib.Str(o.Local))
+	case "err":
+		return "WOErr"
+	}
+	return "WOPanic"
+}
+
+// runWorker: via = build (WorkerCommandAndArgs) | test (TestWorkerCommand) | testseq (ReplaceTestSequences)
+func runWorker(b *built, via, cmd string) (o woutcome) {
+	defer func() {
+		if r := recover(); r != nil {
+			o = woutcome{Kind: "panic"}
+		}
+	}()
+	var worker, args, local string
+	var err error
+	switch via {
+	case "build":
+		b.target.Command = cmd
+		worker, args, local, err = core.WorkerCommandAndArgs(b.state, b.target)
+	case "test":
+		b.target.Test = &core.TestFields{Command: cmd}
+		worker, args, local, err = core.TestWorkerCommand(b.state, b.target)
+		b.target.Test = nil
+	default:
+		local, err = core.ReplaceTestSequences(b.state, b.target, cmd)
+	}
+	if err != nil {
+		return woutcome{Kind: "err"}
+	}
+	return woutcome{Kind: "ok", Worker: worker, Args: args, Local: local}
+}
+
+func quoteDoc(x string) string {
+	if strings.ContainsAny(x, documentedQuoteSet) {
+		return "\"" + x + "\""
+	}
+	return x
+}
+
+// usable sequences for worker commands: nothing that ends the process, no known-finding shape, no system tool
+func workerSeqs(r *lib.Rng, w *World, b *built, wantValid bool) (seq, bool) {
+	for try := 0; try < 60; try++ {
+		s := genSeqs(r, w, 1)[0]
+		e := expect(w, b, s)
+		if e.skip || e.shape != "" || (strings.Contains(s.Arg, "|") && (!e.valid || e.toolWithProvides || e.provided)) || e.valid != wantValid {
+			continue
+		}
+		return s, true
+	}
+	return seq{}, false
+}
+
+func workerCommands(c *lib.Ctx, r *lib.Rng, i int, w *World, b *built, cw, cpx string, n int) {
+	// candidate workers
+	type wk struct {
+		text, want string
+		valid      bool
+	}
+	cands := []wk{{"bash", "bash", true}, {"/usr/bin/env", "/usr/bin/env", true}}
+	for _, g := range w.Graph {
+		g := g
+		ro := w.rolesOf(&g)
+		outs := allOuts(b, &g)
+		switch {
+		case ro.tool && g.Binary && len(outs) == 1:
+			cands = append(cands, wk{g.label(), quoteDoc(filepath.Join(w.Root, "plz-out/bin", g.Sub, g.Pkg, outs[0])), true}, wk{g.label(), quoteDoc(filepath.Join(w.Root, "plz-out/bin", g.Sub, g.Pkg, outs[0])), true})
+		case !ro.declared() && r.Chance(1, 6):
+			cands = append(cands, wk{g.label(), "", false})
+		}
+	}
+	for k := 0; k < n; k++ {
+		wkr := lib.Pick(r, cands)
+		type half struct {
+			text  string
+			valid bool
+		}
+		mkHalf := func(lead string, invalidOdds int) half {
+			h := half{text: lead, valid: true}
+			for j := r.Range(1, 2); j > 0; j-- {
+				want := !r.Chance(1, invalidOdds)
+				s, ok := workerSeqs(r, w, b, want)
+				if !ok {
+					continue
+				}
+				h.text += " " + s.text()
+				h.valid = h.valid && want
+			}
+			return h
+		}
+		args := mkHalf(lib.Pick(r, []string{"--in", "-o x", "\\$X"}), 3)
+		local := half{valid: true}
+		hasLocal := r.Chance(3, 4)
+		if hasLocal {
+			if r.Chance(1, 3) {
+				local.text = "echo ok"
+			} else {
+				local = mkHalf("echo", 5)
+			}
+		}
+		sp := func() string { return lib.Pick(r, []string{" ", " ", "  ", ""}) }
+		cmd := "$(worker " + wkr.text + ")" + sp() + args.text
+		shape := "worker"
+		if hasLocal {
+			cmd += sp() + "&&" + sp() + local.text
+		}
+		switch r.Intn(16) {
+		case 0: // a single & is not the separator: the regular expression does not match, the command is an ordinary one
+			cmd = "$(worker " + wkr.text + ") " + args.text + " & " + local.text
+			shape = "single-ampersand"
+		case 1: // something before the worker
+			cmd = "x " + cmd
+			shape = "preceded"
+		case 2:
+			cmd = "$(worker" + wkr.text + ") " + args.text // no space: HasPrefix in ReplaceTestSequences fires, the regex does not match
+			shape = "no-space"
+		}
+		via := lib.Pick(r, []string{"build", "build", "test", "testseq"})
+		o := runWorker(b, via, cmd)
+		mode := "MWorker"
+		if via == "testseq" {
+			mode = "MTestSeq"
+		}
+		js := map[string]any{"world": w, "via": via, "cmd": cmd, "outcome": o, "args_valid": args.valid, "local_valid": local.valid, "worker_valid": wkr.valid}
+		c.Case(lib.App("CWorker", cw, cpx, mode, lib.Str(cmd), o.coq()), js, fmt.Sprint(i, "K", via, cmd), o.Kind == "ok" && shape == "worker")
+		c.Hist("worker_shape", shape)
+		c.Hist("worker_via", via)
+		c.Hist("worker_outcome", o.Kind)
+		c.Hist("worker_halves", fmt.Sprintf("args-valid=%v,local-valid=%v", args.valid, local.valid))
+		if shape != "worker" || !wkr.valid {
+			continue
+		}
+		// ---- the property oracle on worker commands (no model involved)
+		c.Oracle()
+		switch {
+		case (!args.valid || !local.valid) && o.Kind == "ok":
+			which := "after"
+			if !args.valid {
+				which = "before"
+			}
+			c.Fail("worker-command-invalid-sequence-accepted", fmt.Sprintf("%s has an invalid sequence %s && but is accepted: worker %q args %q local %q", cmd, which, o.Worker, o.Args, o.Local), js)
+		case args.valid && local.valid && o.Kind != "ok":
+			c.Fail("worker-command-valid-rejected", fmt.Sprintf("%s has only valid sequences but is rejected (%s)", cmd, o.Kind), js)
+		case o.Kind == "ok":
+			wantArgs, err1 := core.ReplaceSequences(b.state, b.target, strings.TrimSpace(args.text))
+			wantLocal, err2 := core.ReplaceSequences(b.state, b.target, local.text)
+			if via == "testseq" {
+				if err2 != nil || o.Local != wantLocal {
+					c.Fail("worker-halves-differ-from-plain-expansion", fmt.Sprintf("%s: local part %q, the same text as an ordinary command gives %q", cmd, o.Local, wantLocal), js)
+				}
+			} else if err1 != nil || err2 != nil || o.Args != wantArgs || o.Local != wantLocal {
+				c.Fail("worker-halves-differ-from-plain-expansion", fmt.Sprintf("%s: args %q local %q, the same texts as ordinary commands give %q and %q", cmd, o.Args, o.Local, wantArgs, wantLocal), js)
+			} else if o.Worker != wkr.want {
+				c.Fail("worker-not-the-tool-output", fmt.Sprintf("%s: worker %q, the tool is at %q", cmd, o.Worker, wkr.want), js)
+			}
+			for _, kw := range kinds {
+				if strings.Contains(o.Args+" "+o.Local, "$("+kw+" ") {
+					c.Fail("worker-command-unexpanded-sequence", fmt.Sprintf("%s leaves a sequence unexpanded: args %q local %q", cmd, o.Args, o.Local), js)
+					break
+				}
+			}
+		}
+	}
+}
+
+// the witness of the tool guard of provideFor and its neighbours (always run first)
+func provideCorpus(root string) (*World, []seq) {
+	w := &World{Root: root, Self: Tgt{Pkg: "path/to", Name: "gen", Outs: []string{"gen.out"}}, Requires: []string{"go"},
+		Tools: []Input{{Kind: "label", Pkg: "tools", Name: "gen"}, {Kind: "label", Pkg: "tools", Name: "plain"}},
+		Deps:  [][3]string{{"lib", "dep", ""}, {"lib", "ddep", ""}, {"lib", "other", ""}},
+		Data:  [][3]string{{"lib", "ddep", ""}},
+		Graph: []Tgt{
+			{Pkg: "tools", Name: "gen", Outs: []string{"gen.sh"}, Binary: true, Provides: map[string][][3]string{"go": {{"tools", "gen_lib", ""}}}},
+			{Pkg: "tools", Name: "gen_lib", Outs: []string{"gen_lib.a"}},
+			{Pkg: "tools", Name: "plain", Outs: []string{"plain.sh"}, Binary: true},
+			{Pkg: "lib", Name: "dep", Outs: []string{"dep.txt"}, Provides: map[string][][3]string{"go": {{"lib", "dep_go", ""}}, "py": {{"lib", "dep_py", ""}}}},
+			{Pkg: "lib", Name: "dep_go", Outs: []string{"dep_go.a", "dep_go.b"}},
+			{Pkg: "lib", Name: "dep_py", Outs: []string{"dep.py"}},
+			{Pkg: "lib", Name: "ddep", Outs: []string{"ddep.txt"}, Provides: map[string][][3]string{"go": {{"lib", "dep_go", ""}}}},
+			{Pkg: "lib", Name: "other", Outs: []string{"other.txt"}, Provides: map[string][][3]string{"java": {{"lib", "dep_py", ""}}}},
+		}}
+	return w, []seq{{"location", "//tools:gen"}, {"locations", "//tools:gen"}, {"exe", "//tools:gen"}, {"out_dir", "//tools:gen"}, {"out_exe", "//tools:gen"},
+		{"exe", "//tools:plain"}, {"locations", "//lib:dep"}, {"location", "//lib:dep"}, {"out_locations", "//lib:dep"}, {"dir", "//lib:dep"},
+		{"location", "//lib:ddep"}, {"location", "//lib:other"}, {"location", "//lib:dep_go"}, {"location", "//tools:gen_lib"}}
+}
+
+func extStream(c *lib.Ctx) {
+	nworlds := c.Scale(24, 500)
+	cwd, _ := os.Getwd()
+	defer os.Chdir(cwd)
+	for i := 0; i < nworlds; i++ {
+		r := c.Rng.Fork()
+		root := filepath.Join(c.Out, fmt.Sprintf("x%d", i))
+		if err := os.MkdirAll(root, 0o755); err != nil {
+			panic(err)
+		}
+		if rr, err := filepath.EvalSymlinks(root); err == nil {
+			root = rr
+		}
+		if err := os.Chdir(root); err != nil {
+			panic(err)
+		}
+		mode := []int{namesPlain, namesOperators}[i%2]
+		w := genWorld(r, root, mode, false)
+		var fixed []seq
+		withProvides := i%3 != 2
+		if i == 0 {
+			w, fixed = provideCorpus(root)
+		} else if withProvides {
+			addProvides(r, w)
+		}
+		b := build(w)
+		tmpAbs, _ := materialise(w, b)
+		cw, cpx := coqWorld(w, b), coqPx(w)
+		c.Hist("ext_world", map[bool]string{true: "requires-and-provides", false: "plain"}[withProvides])
+		if withProvides {
+			// every keyword on every tool and dep that carries provides, then random sequences
+			for _, g := range w.Graph {
+				if g.Provides != nil && w.rolesOf(&g).declared() && len(fixed) < 12 && i > 0 {
+					fixed = append(fixed, seq{lib.Pick(r, kinds), g.label()}, seq{lib.Pick(r, []string{"locations", "out_locations", "exe"}), g.label()})
+				}
+			}
+			pending := []bashQuery{}
+			for _, s := range append(fixed, genSeqs(r, w, 4)...) {
+				cmd := s.text()
+				e := expect(w, b, s)
+				var o outcome
+				if strings.Contains(s.Arg, "|") && (!e.valid || e.toolWithProvides || e.provided) {
+					// log.Fatalf territory (also under a regression that substitutes a tool by what it provides)
+					o = expandInChild(w, false, cmd)
+				} else {
+					o = expand(b, false, cmd)
+				}
+				js := map[string]any{"world": w, "seq": s, "cmd": cmd, "outcome": o}
+				c.Case(lib.App("CCmdP", cw, cpx, lib.Str(cmd), o.coq()), js, fmt.Sprint(i, "P", cmd), e.valid && o.Kind == "text")
+				c.Hist("provide_sequence", fmt.Sprintf("%s:provided=%v,tool-with-provides=%v", o.Kind, e.provided, e.toolWithProvides))
+				judge(c, e, o, cmd, js, tmpAbs, root, &pending)
+			}
+			settle(c, root, pending)
+		}
+		workerCommands(c, r, i, w, b, cw, cpx, 5)
 		os.Chdir(cwd)
 		os.RemoveAll(root)
 	}
@@ -1144,7 +1538,7 @@ func splitterTie(c *lib.Ctx) {
 			words = []string{"<bash: error>"}
 			safe = false
 		}
-		c.Case(lib.App("CWords", lib.Str(text), lib.Bool(safe), lib.StrList(words)), map[string]any{"text": text, "words": words, "bash_ok": ok}, "W"+text, safe)
+		c.Case(lib.App("COld", lib.App("CWords", lib.Str(text), lib.Bool(safe), lib.StrList(words))), map[string]any{"text": text, "words": words, "bash_ok": ok}, "W"+text, safe)
 		c.Hist("splitter_text", map[bool]string{true: "quoted-words", false: "random"}[i%2 == 0])
 	}
 }
